@@ -2159,8 +2159,28 @@ def _c15_node_kinds(ctx):
     return kinds
 
 
-def c15_scratch_columns(backend, names, kinds):
-    """the names among `names` that executor `backend` uses as a scratch column in a step the pipeline contains"""
+def _c15_join_suffix_collides(c, pat, ops):
+    """pandas.merge(..., suffixes=("", pat)) renames the right copy of a column `stem` that BOTH inputs have to
+    `stem + pat`: a user column named `stem + pat` collides with it only at a join where `stem` is such a common column
+    (and the user column is a column of one of the inputs).  Elsewhere the name is an ordinary name."""
+    stem = c[:-len(pat)]
+    seen, stack = set(), [ops]
+    while stack:
+        n = stack.pop()
+        if id(n) in seen:
+            continue
+        seen.add(id(n))
+        stack.extend(n.sources)
+        if n.node_name == "NaturalJoinNode":
+            a, b = set(n.sources[0].column_names), set(n.sources[1].column_names)
+            if stem in a and stem in b and (c in a or c in b):
+                return True
+    return False
+
+
+def c15_scratch_columns(backend, names, kinds, ops=None):
+    """the names among `names` that executor `backend` uses as a scratch column in a step the pipeline contains (for the
+    Pandas join suffix: at a join where it really collides, when the renamed pipeline `ops` is given)"""
     out = []
     for c in names:
         for be, how, pat, need in C15_SCRATCH:
@@ -2168,6 +2188,9 @@ def c15_scratch_columns(backend, names, kinds):
                 continue
             if ((how == "exact" and c == pat) or (how == "prefix" and _is_numbered(pat, c))
                     or (how == "suffix" and c.endswith(pat) and len(c) > len(pat))):
+                if be == "pandas" and how == "suffix" and pat == "_tmp_right_col" and ops is not None \
+                        and not _c15_join_suffix_collides(c, pat, ops):
+                    continue
                 out.append(c)
                 break
     return sorted(out)
@@ -2407,7 +2430,7 @@ def oracle_C15(case, **opts):
             # a failure: which guard, if any, does the renamed case violate FOR THIS BACKEND
             finding, hit = None, []
             if be in ("pandas", "polars"):
-                hit = c15_scratch_columns(be, sorted(cm.values()), kinds)
+                hit = c15_scratch_columns(be, sorted(cm.values()), kinds, rctx.ops)
                 if hit:
                     finding = LIVE_FINDINGS["D23"]
             else:
